@@ -137,6 +137,11 @@ def order_vbm(ctx: Ctx) -> List[Ob]:
                     half_link = any((e_.op == "setitem" and e_.field == "_node_by_id") or (e_.op in ("pop", "remove", "delitem") and e_.field == "_children") for e_ in es)
                     local_refusal = not rkey.startswith("call ") or rkey == "call _index_of may refuse"
                     vprops = ["C13", "C01"] if half_link and local_refusal and g.qualname in ("Node.add_child", "Node.move_to", "TypedNode.add_child", "TypedNode.move_to") else ["C13"]
+                    if _prevalidated(ctx, g, cfg, W, rkey, why):
+                        obs.append(ctx.tri("ORDER-VBM", ["C13"], g, key, r.ast, None,
+                                           f"{why}: this new operation raises the same error itself before its first write; whether that "
+                                           "check covers every refusal of the callee is not decided here"))
+                        continue
                     obs.append(ctx.ob("ORDER-VBM", vprops, g, key, r.ast, False,
                                       f"{why} after the tree was already changed by `{norm(w.ast)}` "
                                       f"({es[0].op} {es[0].field}): the refused call leaves a partial change",
@@ -144,6 +149,23 @@ def order_vbm(ctx: Ctx) -> List[Ob]:
         if not found_any:
             obs.append(ctx.ob("ORDER-VBM", ["C13"], f, "no refusal is reachable after a write", None, True))
     return obs
+
+
+def _prevalidated(ctx: Ctx, g: Func, cfg: CFG, W: List[N], rkey: str, why: str) -> bool:
+    """A *new* public operation (not a function of the reference tree) that calls refusing mutators after having
+    checked the same kind of refusal itself: some `raise <same class>` of its own is not reachable from any write."""
+    from ..known_funcs import KNOWN_FUNCS
+
+    if f"{g.top.module}:{g.top.qualname}" in KNOWN_FUNCS or not rkey.startswith("call "):
+        return False
+    cls = why.split(" ")[1] if why.startswith("raise ") else None
+    if not cls:
+        return False
+    for n in cfg.stmt_nodes():
+        if n.kind == "stmt" and isinstance(n.ast, ast.Raise) and raised_class(n.ast) == cls:
+            if not any(cfg.find_path(w, n, strict=True) is not None for w in W):
+                return True
+    return False
 
 
 def _in_loop_with(ctx: Ctx, f: Func, n: N) -> bool:
